@@ -53,6 +53,7 @@ def replay(ctx, cx, h=None):
     reset = 'Y' if c.get('cx_has_reset') and c.get('cx_reset') else ('N' if c.get('cx_has_reset') else '-')
     init = 'init,conn=1,role=%s,sender=%s,target=%s,state=%d,recv=%d,send=%d,enforce=%d,silent=%d,reliable=%d,active=1,auth=%d' % (
         'A' if role == 0 else 'I', own_s, own_t or 'T', 3 if role == 0 else 5, int(c.get('cx_pre_recv', 1)), int(c.get('cx_pre_send', 1)), enforce, int(c.get('cx_silent', 0)), int(c.get('cx_reliable', 0)), auth)
+    if int(c.get('cx_req_s', 0)) or int(c.get('cx_req_r', 0)): init += ',reqsend=%d,reqrecv=%d' % (int(c.get('cx_req_s', 0)), int(c.get('cx_req_r', 0)))
     msg = 'msg,type=A,seq=%d,sci=%s,tci=%s,hbi=%d,reset141=%s' % (int(c.get('cx_seq', 1)), msg_s, msg_t, int(c.get('cx_hbi', 30)), reset)
     steps, raw = sessin.run_steps(ctx, [init, msg])
     if not steps: return False, 'no output: ' + raw
@@ -61,7 +62,7 @@ def replay(ctx, cx, h=None):
         tci_ok = msg_t == own_s; completed = r['state'] == 1
         bad = (completed and enforce and not tci_ok) or (completed and not auth) or (completed and (len(logon_replies) != 1 or int(logon_replies[0].get('108', -1)) != int(c.get('cx_hbi', 30)))) \
               or (completed and reset == 'Y' and (r['send'] != 1 or r['recv'] != 2)) or (enforce and not tci_ok and (r['state'] != 2 or not r['shutdown'] or logon_replies))
-        eff = 1 if reset == 'Y' else int(c.get('cx_pre_recv', 1))
+        eff = 1 if reset == 'Y' else (int(c.get('cx_req_r', 0)) or int(c.get('cx_pre_recv', 1)))
         bad = bad or ((not enforce or tci_ok) and auth and int(c.get('cx_seq', 1)) == eff and not completed)
     else:
         mirror = msg_t == own_s and msg_s == own_t
